@@ -21,7 +21,9 @@ pub enum Node {
         /// metadata() fails with EACCES-like error
         meta_err: bool,
     },
-    Dir,
+    Dir {
+        mtime: SystemTime,
+    },
 }
 thread_local! {
     static FS: RefCell<BTreeMap<PathBuf, Node>> = const { RefCell::new(BTreeMap::new()) };
@@ -69,7 +71,8 @@ pub fn set_eio(p: impl AsRef<Path>, at: Option<usize>) {
 }
 pub fn mkdir(p: impl AsRef<Path>) {
     FS.with(|f| {
-        f.borrow_mut().insert(norm(p.as_ref()), Node::Dir);
+        let mtime = crate::time::wall_now();
+        f.borrow_mut().insert(norm(p.as_ref()), Node::Dir { mtime });
     });
 }
 pub fn remove(p: impl AsRef<Path>) {
@@ -109,7 +112,7 @@ impl File {
         match get(p.as_ref())? {
             Node::File { data, eio_at, .. } => Ok(File { data, pos: 0, eio_at, is_dir: false }),
             // open(2) of a directory succeeds read-only; read(2) then gives EISDIR
-            Node::Dir => Ok(File { data: vec![], pos: 0, eio_at: None, is_dir: true }),
+            Node::Dir { .. } => Ok(File { data: vec![], pos: 0, eio_at: None, is_dir: true }),
         }
     }
 }
@@ -151,7 +154,7 @@ pub fn metadata(p: impl AsRef<Path>) -> io::Result<Metadata> {
     match get(p.as_ref())? {
         Node::File { meta_err: true, .. } => Err(io::Error::from_raw_os_error(13)),
         Node::File { mtime, .. } => Ok(Metadata { mtime }),
-        Node::Dir => Ok(Metadata { mtime: SystemTime::UNIX_EPOCH }),
+        Node::Dir { mtime } => Ok(Metadata { mtime }),
     }
 }
 pub fn read(p: impl AsRef<Path>) -> io::Result<Vec<u8>> {
